@@ -37,7 +37,8 @@ Example C02_types_example :   (* optional(sequence(tensor(FLOAT, [N, 3]))) with 
 Proof. reflexivity. Qed.
 
 (* Stage 2.  Tensors: dims, data_type, every storage field, external entries, doc string, metadata, for the
-   three IR representations (proto-backed, external, string), also after the initializer renaming. *)
+   three IR representations (proto-backed, external with arbitrary extra external_data entries, string),
+   also after the initializer renaming. *)
 Theorem C02_tensor_fields :
   forall t : TensorP, wf_tensor t = true ->
   exists q, roundtrip_tensor t = Ok q /\ norm_tensor q = norm_tensor t.
@@ -75,16 +76,19 @@ Proof.
 Qed.
 Print Assumptions C02_attrs_all_kinds.
 
-(* Recorded finding (status known): external_data entries other than location/offset/length are dropped.
-   The model reproduces it; wf_tensor excludes exactly this site. *)
+(* External tensors keep every external_data entry (fixed finding external-data-checksum-dropped, fb2515e):
+   location/offset/length are interpreted, all other entries (checksum, basepath, unknown keys) are carried
+   along and written back; the former witness is well-formed now and round-trips. *)
 Definition checksum_witness : TensorP :=
   mkTensorP [2] (Some 1) (Some [116%N]) None (Some 1) None [] []
-            [(k_location, [97%N]); (k_checksum, [100%N; 97%N])] [].
-Theorem C02_external_checksum_refuted :
-  exists t q, roundtrip_tensor t = Ok q /\ tensor_eqb (norm_tensor q) (norm_tensor t) = false
-              /\ wf_tensor t = false.
-Proof. exists checksum_witness. eexists. split; [reflexivity|]. split; reflexivity. Qed.
-Print Assumptions C02_external_checksum_refuted.
+            [([122%N], [49%N]); (k_checksum, [100%N; 97%N]); (k_offset, [52%N]); (k_location, [97%N]); (k_basepath, [119%N])] [].
+Example C02_external_entries_kept :
+  wf_tensor checksum_witness = true
+  /\ match roundtrip_tensor checksum_witness with
+     | Ok q => tensor_eqb (norm_tensor q) (norm_tensor checksum_witness)
+     | Raise _ => false
+     end = true.
+Proof. split; vm_compute; reflexivity. Qed.
 
 (* The hypothesis on nested graphs is satisfiable, which gives an unconditional corollary: every
    attribute whose graph values (if any) are empty graphs round-trips, with the real deser_graph/ser_graph. *)
